@@ -418,6 +418,11 @@ func (x *Exec) applyContract(st *State, ct *Contract, c *callee, recv *T, args [
 		}
 	}
 	env.st = st
+	if ct.Pure && c.fn != nil && len(results) == 1 {
+		// a pure function's result is the uninterpreted function of its arguments used in specs
+		st.assume(eq(results[0].S, x.pureApp(c.fn, recv, args).S))
+		x.note("pure: %s is treated as a function of its receiver and arguments (result == pure_%s(...))", ct.Key, sanitize(shortName(funcFullName(c.fn))))
+	}
 	for _, e := range ct.Ensures {
 		t := x.specEval(st, e.Expr, env)
 		st.assume(t.S)
